@@ -63,7 +63,7 @@ static carquet_reader_t* open_prefix(const uint8_t* buf, size_t k, carquet_error
 }
 
 /* carquet opened a proper prefix (buf[0..k)).  complete = the prefix is itself a complete Parquet file (then accepting it is allowed).
- * Otherwise it is a violation; the message separates the class of the open finding F-FOOTER-REQUIRED — the envelope is well formed
+ * Otherwise it is a violation; the message separates the class of the open finding F-FOOTER-NO-REQUIRED — the envelope is well formed
  * ("PAR1" ... <L> "PAR1" with 1 <= L <= k-8, the bound carquet itself applies), so acceptance was decided by the FileMetaData parser alone, which takes bytes without
  * the required fields for a footer — from everything else (magic / length / size checks), which stays a plain violation. */
 static void accepted_prefix(carquet_reader_t* r, const uint8_t* buf, size_t k, int complete) {
@@ -73,7 +73,7 @@ static void accepted_prefix(carquet_reader_t* r, const uint8_t* buf, size_t k, i
             uint32_t L = (uint32_t)buf[k - 8] | ((uint32_t)buf[k - 7] << 8) | ((uint32_t)buf[k - 6] << 16) | ((uint32_t)buf[k - 5] << 24);
             envelope = (L >= 1 && L <= k - 8);
         }
-#ifdef EXCLUDE_F_FOOTER_REQUIRED
+#ifdef EXCLUDE_F_FOOTER_NO_REQUIRED
         /* open known finding (reported through its witness program) */
         if (envelope) { carquet_reader_close(r); return; }
 #endif
